@@ -10,7 +10,7 @@ META = {
                   "ascon{128,128a,80pq}_aead_{init,start,encrypt_block,encrypt_finalize}",
                   "ascon{128,128a,80pq}_masked_aead_encrypt (+ ascon-aead-masked-common.c, masked word back end, masked key init)"],
     "bounds": "shape = (algorithm, AD length, plaintext length, split point, back end) concrete, one query each; key, nonce, AD, plaintext "
-              "and prior output buffer contents symbolic. quick: AD x PT on the row/column through (r+1, r+1) of L(r)={0,1,r-1,r,r+1,2r,2r+1}; "
+              "and prior output buffer contents symbolic. quick: AD x PT on the row/column through (r+1, r+1) of L(r)={0,1,r-1,r,r+1,2r,2r+1} on c64 and c32, plus (r+1,r+1) and (r-1,2r+1) on direct/generic/x86asm; "
               "thorough: Cartesian grid 0..2r+1 plus 3r, 4r+1, plus (64,100), (100,257), (5,1000). Transcript form (permutation = free function) "
               "on the whole grid, integrated form (real permutation inside) on 3 shapes per algorithm and back end.",
     "outside": "lengths not in the grid as a direct claim (largest encoded message 1000 bytes), in particular messages of 2^32 bytes and more (a length narrowed to 32 bits in a helper would go unnoticed: seed C06-2); C++ byte_array overloads (C17)",
@@ -58,6 +58,11 @@ def queries(tier):
             # incremental: split points around the rate
             for ad, m, s in [(0, 0, 0), (r + 1, 2 * r + 1, 1), (1, 2 * r + 1, r), (r, 2 * r, r + 1), (0, r - 1, r - 1), (3, 2 * r + 1, 0)]:
                 qs.append(enc_query(alg, ad, m, be, "T", mode=2, split=s))
+        if tier == "quick":
+            # two shapes (full + partial blocks on both sides) on the remaining back ends, whose SnP macros differ; full grid: thorough / C09
+            for be in ("direct", "generic", "x86asm"):
+                qs.append(enc_query(alg, r + 1, r + 1, be, "T"))
+                qs.append(enc_query(alg, r - 1, 2 * r + 1, be, "T"))
         ibackends = ["c64"] if tier == "quick" else ["c64", "direct", "generic", "x86asm"]
         for be in ibackends:
             for ad, m in [(0, 0), (r + 1, r - 1), (2 * r + 1, 2 * r)]:
